@@ -483,3 +483,73 @@ impl Grammar {
         self.reachable().iter().all(|b| *b) && self.fully_productive()
     }
 }
+
+impl Grammar {
+    /// A rule can reach itself in leftmost position (through nullable prefixes, any alternation / ordered
+    /// choice branch, loop and option bodies) other than by the direct left recursion of a Pratt rule
+    /// (top-level alternation branch that is a concatenation starting with the rule itself and continuing
+    /// with something else).
+    pub fn hidden_left_recursion(&self) -> bool {
+        let arena = arena::Arena::build(self);
+        let bnf = bnf::Bnf::build(self, &arena);
+        let sets = bnf::Sets::compute(&bnf);
+        // leftmost references of every rule
+        fn leftmost(a: &arena::Arena, sets: &bnf::Sets, id: usize, out: &mut Vec<usize>) {
+            let n = &a.nodes[id];
+            match &n.kind {
+                arena::K::Ref(_) => out.push(id),
+                arena::K::Concat => {
+                    for c in &n.children {
+                        leftmost(a, sets, *c, out);
+                        if !sets.nullable[*c] {
+                            break;
+                        }
+                    }
+                }
+                arena::K::Tok(_) | arena::K::Op(_) => {}
+                _ => {
+                    for c in &n.children {
+                        leftmost(a, sets, *c, out);
+                    }
+                }
+            }
+        }
+        let n = self.rules.len();
+        let mut edge = vec![vec![false; n]; n];
+        for r in 0..n {
+            let Some(root) = arena.roots[r] else { continue };
+            let mut refs = vec![];
+            leftmost(&arena, &sets, root, &mut refs);
+            for id in refs {
+                let arena::K::Ref(q) = arena.nodes[id].kind else { continue };
+                // direct Pratt-style left recursion is the supported form
+                let direct = q == r
+                    && matches!(arena.nodes[root].kind, arena::K::Alt)
+                    && arena.nodes[id].parent.is_some_and(|p| {
+                        matches!(arena.nodes[p].kind, arena::K::Concat)
+                            && arena.nodes[p].parent == Some(root)
+                            && arena.nodes[p]
+                                .children
+                                .iter()
+                                .find(|c| !matches!(&arena.nodes[**c].kind, arena::K::Op(Rx::Pred(_) | Rx::Rename(_) | Rx::Elide | Rx::Action(_))))
+                                == Some(&id)
+                            && arena.nodes[p].children.last() != Some(&id)
+                    });
+                if !direct {
+                    edge[r][q] = true;
+                }
+            }
+        }
+        // transitive closure
+        for k in 0..n {
+            for i in 0..n {
+                for j in 0..n {
+                    if edge[i][k] && edge[k][j] {
+                        edge[i][j] = true;
+                    }
+                }
+            }
+        }
+        (0..n).any(|r| edge[r][r])
+    }
+}
